@@ -7,7 +7,7 @@ import Gimli.Model.Die
   of the section (`off,len,fmt,ver,asz,abbr,type,hsz,soh,ebuf`)
 * `die-nav <style> <endian> <info|types> <abbrev hex> <section hex> <start|-> …`
   → `ok <off:depth:tag:children>;… <ok|ErrName>`: the first unit of the section listed by one
-  navigation style (`raw`, `rawskip`, `entry`, `dfs`, `sib`, `tree`), from the root or from a unit offset
+  navigation style (`raw`, `rawskip`, `entry`, `dfs`, `sib`, `tree`, `treeskip`), from the root or from a unit offset
 * `die-at <endian> <info|types> <abbrev hex> <section hex> <off,off,…> …`
   → `ok <entry>|<first dfs>|<tree root>;…` for every offset
 * `abbrev-get <abbrev hex> <offset> <code,code,…>` → `ok <code>=<tag:children:name/form/implicit+…|->;…`
@@ -94,6 +94,7 @@ def handle (op : String) (args : List String) : Option String :=
         let c ← (match start with | none => pure hd.entries | some o => hd.entriesAt o)
         pure (traceS (siblingAll ctx fuel c))
       | "tree" => do let t ← hd.entriesTree off; pure (traceS (treeAll ctx fuel t))
+      | "treeskip" => do let t ← hd.entriesTree off; pure (traceS (treeSkipAll ctx fuel t))
       | _ => pure "bad-style"
     pure (match r with
       | .ok s => s
